@@ -43,6 +43,122 @@ class NotInlinable(Exception):
     pass
 
 
+def fingerprint(fn: ast.FunctionDef) -> dict:
+    body = strip_doc(fn.body)
+    callees, attrs, strs = set(), set(), set()
+    n_nodes = 0
+    for st in body:
+        for n in ast.walk(st):
+            n_nodes += 1
+            if isinstance(n, ast.Call):
+                if isinstance(n.func, ast.Name):
+                    callees.add(n.func.id)
+                elif isinstance(n.func, ast.Attribute):
+                    callees.add(n.func.attr)
+            elif isinstance(n, ast.Attribute):
+                attrs.add(n.attr)
+            elif isinstance(n, ast.Constant) and isinstance(n.value, str) and n.value.strip():
+                strs.add(n.value.strip()[:60])
+    a = fn.args
+    return {"params": len(a.posonlyargs) + len(a.args) + len(a.kwonlyargs), "callees": sorted(callees), "attrs": sorted(attrs), "strs": sorted(strs), "size": n_nodes}
+
+
+def load_baseline_funcs() -> dict:
+    try:
+        with open(BASELINE_FILE, encoding="utf-8") as f:
+            return json.load(f).get("funcs", {})
+    except (OSError, ValueError) as e:
+        raise AnalysisError(f"cannot read {BASELINE_FILE}: {e}")
+
+
+def _jac(a, b):
+    a, b = set(a), set(b)
+    if not a and not b:
+        return None
+    return len(a & b) / len(a | b)
+
+
+def recover_renames(prog: Program) -> Tuple[Optional[Dict[str, ast.Module]], Dict[str, str]]:
+    """A baseline function that is gone while a new function with (nearly) the same body sits in the same class / module
+    was renamed: give it its baseline name back (definition and every reference) so that the rules find their anchors.
+    Returns (renamed trees or None, {new qualified name: baseline qualified name})."""
+    base = load_baseline_funcs()
+    names = load_baseline()
+    missing = [q for q in base if q not in prog.funcs and q.rsplit(".", 1)[0] in set(prog.modules) | set(prog.classes)]
+    new = [q for q in prog.funcs if q not in names and not q.startswith("tests.") and not q.endswith(".setter")]
+    if not missing or not new:
+        return None, {}
+    fps = {q: fingerprint(prog.funcs[q].node) for q in new}
+    ren_names: Dict[str, str] = {}   # simple new name -> simple old name (applied to callee sets of later rounds)
+    mapping: Dict[str, str] = {}
+    for _round in range(3):
+        scored = []
+        for m in missing:
+            if m in mapping.values():
+                continue
+            scope = m.rsplit(".", 1)[0]
+            fm = base[m]
+            for x in new:
+                if x in mapping or x.rsplit(".", 1)[0] != scope:
+                    continue
+                fx = fps[x]
+                cx = {ren_names.get(c, c) for c in fx["callees"]}
+                ax = {ren_names.get(c, c) for c in fx["attrs"]}
+                parts = [(_jac(fm["strs"], fx["strs"]), 0.45), (_jac(fm["callees"], cx), 0.3), (_jac(fm["attrs"], ax), 0.25)]
+                parts = [(v, w) for v, w in parts if v is not None]
+                if not parts:
+                    continue
+                sc = sum(v * w for v, w in parts) / sum(w for _, w in parts)
+                if fm["params"] != fx["params"]:
+                    sc -= 0.1
+                ratio = min(fm["size"], fx["size"]) / max(fm["size"], fx["size"], 1)
+                if ratio < 0.5:
+                    sc -= 0.2
+                scored.append((sc, m, x))
+        scored.sort(reverse=True)
+        progress = False
+        for sc, m, x in scored:
+            if sc < 0.6 or m in mapping.values() or x in mapping:
+                continue
+            # clearly better than any competitor for either side
+            rivals = [s2 for s2, m2, x2 in scored if (m2 == m) != (x2 == x) and (m2 == m or x2 == x)]
+            if rivals and max(rivals) > sc - 0.15:
+                continue
+            mapping[x] = m
+            ren_names[x.rsplit(".", 1)[1]] = m.rsplit(".", 1)[1]
+            progress = True
+        if not progress:
+            break
+    if not mapping:
+        return None, {}
+    # simple names must be unambiguous to rename references by name
+    simple = {}
+    for x, m in list(mapping.items()):
+        xn, mn = x.rsplit(".", 1)[1], m.rsplit(".", 1)[1]
+        others = [q for q in prog.funcs if q.rsplit(".", 1)[1] == xn and q != x]
+        taken = [q for q in prog.funcs if q.rsplit(".", 1)[1] == mn and q.rsplit(".", 1)[0] == m.rsplit(".", 1)[0]]
+        if others or taken or xn in simple:
+            del mapping[x]
+            continue
+        simple[xn] = mn
+    if not mapping:
+        return None, {}
+    trees = {}
+    for mod, mi in prog.modules.items():
+        t = copy.deepcopy(mi.tree)
+        for n in ast.walk(t):
+            if isinstance(n, (ast.FunctionDef, ast.AsyncFunctionDef)) and n.name in simple:
+                n.name = simple[n.name]
+            elif isinstance(n, ast.Attribute) and n.attr in simple:
+                n.attr = simple[n.attr]
+            elif isinstance(n, ast.Name) and n.id in simple:
+                n.id = simple[n.id]
+            elif isinstance(n, ast.alias) and n.name in simple:
+                n.name = simple[n.name]
+        trees[mod] = t
+    return trees, mapping
+
+
 def load_baseline() -> Set[str]:
     try:
         with open(BASELINE_FILE, encoding="utf-8") as f:
@@ -1125,8 +1241,9 @@ def main():
         prog = Program(root, wide=True)
         names = sorted(set(prog.funcs) | set(prog.classes) | {f"{m}.{c}" for m, mi in prog.modules.items() for c in mi.consts})
         with open(BASELINE_FILE, "w", encoding="utf-8") as f:
-            json.dump({"comment": "qualified names of every function and class of the pinned tree; anything else is a helper and is dissolved into its callers (sa/normalize.py)",
-                       "names": names}, f, indent=0)
+            json.dump({"comment": "qualified names of every function and class of the pinned tree (anything else is a helper and is dissolved into its callers, "
+                                  "sa/normalize.py) and a fingerprint of every function, used only to recognise a baseline function that was renamed",
+                       "names": names, "funcs": {q: fingerprint(fi.node) for q, fi in sorted(prog.funcs.items()) if not q.startswith("tests.")}}, f, indent=0)
         print(len(names), "names written to", BASELINE_FILE)
         return 0
     prog = Program(root)
